@@ -254,6 +254,11 @@ func dupSignatureOverRange(ps *plannedSet, q *query, models []rewriter) bool {
 // dupSignature: setOps = false looks at arithmetic / comparison operations (one-to-one), setOps =
 // true at and / or / unless (finding setop-one-series-per-signature).
 func dupSignature(ps *plannedSet, q *query, models []rewriter, setOps bool) bool {
+	return dupSignatureX(ps, q, models, setOps, true)
+}
+
+// bothSides: also count a signature that occurs on both sides of a set operator in a range query.
+func dupSignatureX(ps *plannedSet, q *query, models []rewriter, setOps, bothSides bool) bool {
 	found := false
 	check := func(e expr) {
 		e.walk(func(x expr) {
@@ -273,6 +278,7 @@ func dupSignature(ps *plannedSet, q *query, models []rewriter, setOps bool) bool
 			case "right":
 				sides = []expr{b.l}
 			}
+			var sideSigs []map[string]bool
 			for _, side := range sides {
 				q2 := *q
 				q2.e = side
@@ -307,6 +313,16 @@ func dupSignature(ps *plannedSet, q *query, models []rewriter, setOps bool) bool
 						found = true
 					}
 					seen[k] = true
+				}
+				sideSigs = append(sideSigs, seen)
+			}
+			// set operators work per series over the whole range: in a range query a signature that
+			// occurs on both sides is matched wherever the samples of the two series lie
+			if setOps && bothSides && q.step > 0 && len(sideSigs) == 2 {
+				for k := range sideSigs[0] {
+					if sideSigs[1][k] {
+						found = true
+					}
 				}
 			}
 		})
